@@ -102,13 +102,18 @@ func main() {
 
 	// ---- (3) semantics ----------------------------------------------------------------------------
 	maxLen := 2
-	budget := 70 * time.Second
+	budget := 150 * time.Second
 	if run.Thorough() {
 		maxLen = 3
 		budget = 15 * time.Minute
 	}
 	if v := os.Getenv("C15_MAXLEN"); v != "" {
 		fmt.Sscan(v, &maxLen)
+	}
+	if v := os.Getenv("C15_BUDGET_S"); v != "" { // development aid (loaded machine)
+		var sec int
+		fmt.Sscan(v, &sec)
+		budget = time.Duration(sec) * time.Second
 	}
 	deadline := start.Add(budget)
 	sem := runSemantics(run, scratch, binCh, &binErr, maxLen, deadline)
